@@ -1201,7 +1201,8 @@ def handle_mach_vmfault(parser, events):
     caller_prot = None
     if result == 0:
         fault_type = DbgVmFaultType(rets[3])
-        real_events = [e for e in events[1:-1] if 0x1320008 <= e.eventid <= 0x1320014]
+        real_events = [e for e in events[1:-1] if
+                       parser.trace_codes.get(e.eventid, '').startswith('RealFaultAddress')]
         if real_events:
             vm_fault_real = parser.parse_event_list(real_events)
             if vm_fault_real is not None:
